@@ -12,6 +12,40 @@ use std::path::{Path, PathBuf};
 use std::sync::{Arc, Mutex};
 use std::time::Instant;
 
+/// cases skipped because the harness itself (not a guarded library call) panicked; first message kept
+static HARNESS_PANICS: std::sync::atomic::AtomicU64 = std::sync::atomic::AtomicU64::new(0);
+static FIRST_HARNESS_PANIC: Mutex<Option<String>> = Mutex::new(None);
+
+/// Run one case; a panic of the harness's own code skips the case (counted and reported, never a
+/// violation and never silently dropped) instead of taking the whole check down.
+fn guarded_case<C>(unit: &str, check: &dyn Fn(&C, &mut CaseCtx) -> Result<(), Failure>, case: &C, ctx: &mut CaseCtx) -> Result<(), Failure> {
+    match std::panic::catch_unwind(std::panic::AssertUnwindSafe(|| {
+        // development switch: exercise this path once
+        if std::env::var("VERIF_TEST_HARNESS_PANIC").is_ok() && HARNESS_PANICS.load(std::sync::atomic::Ordering::SeqCst) == 0 {
+            panic!("simulated harness panic");
+        }
+        check(case, ctx)
+    })) {
+        Ok(r) => r,
+        Err(p) => {
+            let msg = if let Some(s) = p.downcast_ref::<&str>() {
+                s.to_string()
+            } else if let Some(s) = p.downcast_ref::<String>() {
+                s.clone()
+            } else {
+                "?".into()
+            };
+            HARNESS_PANICS.fetch_add(1, std::sync::atomic::Ordering::SeqCst);
+            let mut f = FIRST_HARNESS_PANIC.lock().unwrap();
+            if f.is_none() {
+                *f = Some(format!("{unit}: {msg}"));
+            }
+            ctx.labels.insert("harness_panic(case skipped)".to_string());
+            Ok(())
+        }
+    }
+}
+
 /// root of the verification tree: /verif, or $VERIF_ROOT for background runs in a snapshot (vp run)
 pub fn verif_dir() -> String {
     std::env::var("VERIF_ROOT").unwrap_or_else(|_| "/verif".to_string())
@@ -320,7 +354,7 @@ impl<C: Debug + Clone + Serialize + DeserializeOwned + 'static> Unit for PropUni
         let known = cfg.known.clone();
         let result = runner.run(&strat, |case| {
             let mut ctx = CaseCtx::new(&known);
-            let r = (self.check)(&case, &mut ctx);
+            let r = guarded_case(&self.name, &*self.check, &case, &mut ctx);
             let mut a = acc.borrow_mut();
             if !a.frozen {
                 a.rep.evaluations += 1;
@@ -442,7 +476,7 @@ impl<C: Debug + Clone + Serialize + DeserializeOwned + 'static> Unit for EnumUni
                 continue;
             }
             let mut ctx = CaseCtx::new(&cfg.known);
-            let r = (self.check)(case, &mut ctx);
+            let r = guarded_case(&self.name, &*self.check, case, &mut ctx);
             rep.evaluations += 1;
             rep.asserts += ctx.asserts;
             for l in &ctx.labels {
@@ -752,6 +786,7 @@ pub fn run_property(mut spec: PropertySpec, tier: Tier, seed: u64) -> i32 {
             "units": unit_rows,
             "known_findings_excluded": known_hits,
             "exhaustive": false,
+            "cases_skipped_after_a_harness_panic": HARNESS_PANICS.load(std::sync::atomic::Ordering::SeqCst),
         },
         "assumptions": spec.assumptions,
         "wall_s": (wall * 100.0).round() / 100.0,
@@ -776,6 +811,18 @@ pub fn run_property(mut spec: PropertySpec, tier: Tier, seed: u64) -> i32 {
         violations.len(),
         wall
     );
+    let hp = HARNESS_PANICS.load(std::sync::atomic::Ordering::SeqCst);
+    if hp > 0 {
+        println!(
+            "NOTE property={} {hp} case(s) skipped after a panic inside the harness itself (first: {})",
+            spec.id,
+            FIRST_HARNESS_PANIC.lock().unwrap().clone().unwrap_or_default()
+        );
+        if violations.is_empty() && hp * 50 > evaluations.max(1) {
+            println!("INCONCLUSIVE property={} more than 2% of the cases were skipped", spec.id);
+            return 2;
+        }
+    }
     if violations.is_empty() {
         0
     } else {
